@@ -260,6 +260,32 @@ func genC09(tier string, rng *Rng) {
 		scs = append(scs, sc)
 		hist[mode+"-same-objects"]++
 	}
+	// the writer is BUSY (the panel pauses reading, small socket buffers, a 300 KiB state in flight) while
+	// further lists queue up in a buffered channel, the LAST of them empty / nil, and nothing is submitted
+	// afterwards: everything handed over must still reach the panel once it reads again (seed C09-15: a
+	// buffered writer that flushes only when the channel is empty, and skips empty lists before that test)
+	for _, asc := range []bool{false, true} {
+		for _, tail := range []int{0, 1, 2} { // what follows the small list: nothing, an empty list, two empty lists
+			cs := goodConn(1)
+			if asc {
+				cs = goodAscConn("HWC#1=Down")
+			}
+			big := &rwp.InboundMessage{States: []*rwp.HWCState{{HWCIDs: []uint32{77}, HWCGfx: &rwp.HWCGfx{ImageType: rwp.HWCGfx_RGB16bit, W: 400, H: 300, ImageData: rng.Bytes(120000)}}}}
+			list := []Submission{{Msgs: []*rwp.InboundMessage{big}}, {Msgs: []*rwp.InboundMessage{randInMsg(rng, 611, false)}, Delay: 100}, {Msgs: []*rwp.InboundMessage{randInMsg(rng, 613, false), randInMsg(rng, 615, false)}, Delay: 20}}
+			for k := 0; k < tail; k++ {
+				list = append(list, Submission{Delay: 20})
+			}
+			sc := &Scenario{Entry: "client", Conns: []ConnScript{cs}, SubStart: 250, Subs: [][]Submission{list},
+				ToPanelCap: 8, SmallBuffers: true, ReadPauseFrom: 200, ReadPauseTo: 1300, Cancel: 1300 + 5000} // (a 4 KiB window drains slowly: delayed ACKs)
+			mode := "bin"
+			if asc {
+				mode = "asc"
+			}
+			sc.ID = fmt.Sprintf("%s-busy-writer-queue-%d", mode, tail)
+			scs = append(scs, sc)
+			hist[mode+"-busy-writer-queue"]++
+		}
+	}
 	// the panel uses every flow word while the application submits: BSY / RDY / ping / ack / nack are
 	// messages for the application, the writer does not act on them (seed C09-13: the writer waited for
 	// RDY after a BSY)
